@@ -370,7 +370,57 @@ def rule_boot_once(ctx) -> None:
                   "wiping the GEL edges earlier turns built - the turn completes but its records differ from a run without the snapshot", ctx.path_witness(fn, p))
 
 
+def rule_layer_faults_are_whole(ctx) -> None:
+    """"emits its canonical T2 record equal to that of a run in which that subsystem is switched off": a rerank layer that
+    fails leaves BOTH the ranking and its bookkeeping as they were before it.  In apply_quality a layer (hybrid, fusion, MMR)
+    assigns the ranking and sets its `*_used` flag inside a try whose handler resets the flag: once the ranking has been
+    reassigned inside that try, nothing that can still raise may follow in the same try body - or the handler wipes the
+    bookkeeping of a reorder that stays in effect (the record then matches no switched-off run)."""
+    fn = ctx.func("clematis.engine.stages.t2.quality:apply_quality")
+    rank = "retrieved" if "retrieved" in fn.params else fn.params[2]
+    n_layers = 0
+    for t in [x for x in walk_no_defs(fn.node) if isinstance(x, ast.Try)]:
+        resets = [y for h in t.handlers for st in h.body for y in ast.walk(st) if isinstance(y, ast.Assign) and any(isinstance(tt, ast.Name) and tt.id.endswith("_used") for tt in y.targets)
+                  and isinstance(y.value, ast.Constant) and y.value.value is False]
+        if not resets:
+            continue
+        n_layers += 1
+        restores = any(isinstance(y, ast.Assign) and any(isinstance(tt, ast.Name) and tt.id == rank for tt in y.targets) for h in t.handlers for st in h.body for y in ast.walk(st))
+        # statements of the try body in order, not descending into inner try bodies that have their own catch-all
+        flat: List[ast.stmt] = []
+
+        def walk(stmts):
+            for st in stmts:
+                if isinstance(st, ast.Try) and any(handler_catches_all(h) for h in st.handlers):
+                    flat.append(ast.Pass())  # an inner guarded layer: its failures do not reach this handler
+                    continue
+                flat.append(st)
+                for fld in ("body", "orelse"):
+                    if hasattr(st, fld) and not isinstance(st, (ast.FunctionDef, ast.ClassDef)):
+                        walk(getattr(st, fld))
+
+        walk(t.body)
+        seen_assign = None
+        late = None
+        for st in flat:
+            if isinstance(st, ast.Assign) and any(isinstance(tt, ast.Name) and tt.id == rank for tt in st.targets):
+                seen_assign = st
+                continue
+            if seen_assign is not None and late is None and not isinstance(st, (ast.If, ast.For, ast.While, ast.With, ast.Try, ast.Pass)):
+                # reads of the layer's own result record (x.get(k)) and plain conversions of them do not count
+                own = [y for y in ast.walk(st) if isinstance(y, ast.Call) and dotted(y.func) not in ("bool", "len", "isinstance", "int", "float", "str", "dict", "list") and call_tail(y) != "get"]
+                if own:
+                    late = st
+        flag = sorted({tt.id for y in resets for tt in y.targets if isinstance(tt, ast.Name)})[0]
+        ctx.check(late is None or restores, "C20.NEUTRAL", ctx.okey(f"{fn.qual}/layer-fault-undoes-the-whole-layer:{flag}"), fn.loc(late or t),
+                  f"after `{rank}` is reassigned inside the try that resets {flag}, nothing that can raise follows (or the handler restores the ranking)",
+                  f"`{src(late)[:60] if late is not None else ''}` runs after `{src(seen_assign)[:40] if seen_assign is not None else ''}` inside the try whose handler resets `{flag}`: if it raises, the "
+                  "reordered ranking stays while its bookkeeping is wiped - the T2 record matches neither the run with this layer off nor the run with the whole quality path off")
+    ctx.floor("C20.NEUTRAL", "rerank layers with a flag-resetting handler in apply_quality", n_layers, 2)
+
+
 def run(ctx) -> None:
+    rule_layer_faults_are_whole(ctx)
     rule_boot_once(ctx)
     rule_handler_names(ctx)
     rule_sanit(ctx)
